@@ -1456,6 +1456,7 @@ M("RFM-negotiated-window-unclamped", ["C06"], [("@patch", "selftest/mutants_rf/n
 M("RFM-enumerate-index-over-skipped-iterator", ["C03"], [("@patch", "selftest/mutants_rf/enumerate-skip.diff", "")], ["C03/comp/removes-the-acknowledged-entry"])
 RF("RF-head-first-lookup-with-offset", ALL19, [("@patch", "selftest/refactors/RF-head-first-lookup.diff", "")])
 M("RFM-pass-enum-fresh-first", ["C01"], [("@patch", "selftest/mutants_rf/pass-enum-fresh-first.diff", "")], ["C01/priority/in-progress-first"])
+M("RFM-predicates-pending-ignores-generation", ["C18"], [("@patch", "selftest/mutants_rf/predicates-pending-ignores-generation.diff", "")], ["C18/status/table"])
 
 # fourth round: organisational refactorings (guard clauses, sub-borrows, loop forms, private structs, generic helpers)
 for _p in sorted(_glob.glob(_os.path.join(_os.path.dirname(_os.path.abspath(__file__)), "refactors", "rf4", "*.diff"))):
@@ -1501,8 +1502,6 @@ KNOWN_LIMITS = {
                                                      ["C03/rel/id", "C03/wire/", "C04/offarena/", "C14/tx/"]),
     "RF5-C10-05-pingreq-decision-on-session-data": ("both keep-alive decision functions deleted, the enqueue folded into the two step loops: the `due` truth table is taken "
                                                     "of a loop-free function", ["C10/ANCHOR-LOST/due/"]),
-    "RF5-C18-02-status-predicates": ("`Session::status` and `OpStatus` deleted, the three public predicates written out directly: the decision table is taken of `status`",
-                                     ["C05/ANCHOR-LOST/status/", "C18/ANCHOR-LOST/status/"]),
     "RF5-C20-05-iter-next-per-variant": ("`PropertiesIter::next` split into per-variant helpers over `&mut index`: the dominating guard of the index arithmetic is spelled "
                                          "over parameters", ["C08/panic/"]),
 }
